@@ -365,6 +365,10 @@ def r3_callsites(ctx):
                         fsrc = fc[0]
                     fen = e6.is_call(e6.strip_upd(fsrc), "enumerate", 1)
                     zp = e6.is_call(fen[0], "zip", 2) if fen else None
+                    # `kernels.iter_mut().enumerate().zip(grads)`: the same pairs, the counter attached before the zip
+                    zp_alt = e6.is_call(e6.strip_upd(fsrc), "zip", 2) if not fen else None
+                    en_alt = e6.is_call(zp_alt[0], "enumerate", 1) if zp_alt else None
+                    alt = en_alt is not None
                     fps = [e6.Path({}, pc=x[0], eff=x[1], exit=x[2], val=x[3]) for x in loops[0][3]]
                     fu = [e for e in fps[0].eff if e[0] == "mut" and e[1] == "optimizer::Optimizer::update"] if len(fps) == 1 else []
                     fel0 = ("elem", e6.strip_upd(fsrc), loops[0][1])
@@ -387,6 +391,16 @@ def r3_callsites(ctx):
                                     roles.setdefault("W", set()).add(g)
                         if not okz:
                             why = "filter loop over %s is not a zip of kernels and gradients" % e6.show(fsrc, 3)[:80]
+                    elif alt and len(fps) == 1 and not fps[0].pc and fps[0].exit is None and len(fu) == 1 and len([e for e in fps[0].eff if e[0] != "loop"]) == 1:
+                        split = e6.is_call(e6.strip_upd(e6.entry_value(q, zp_alt[1])) if not e6.is_call(zp_alt[1], "quadruple_to_vec_triple", 1) else zp_alt[1], "quadruple_to_vec_triple", 1)
+                        g = grad_base(split[0]) if split else None
+                        a = tuple(e6.strip_upd(x) for x in fu[0][3])
+                        okk = (en_alt[0] == ("field", pay, "kernels") and g and len(a) == 6 and I == a[0] and a[1] == ("proj", ("proj", fel0, 0), 0) and a[2] == ("lit", "false")
+                               and a[3] == STEP and a[4] == ("proj", ("proj", fel0, 0), 1) and a[5] == ("proj", fel0, 1))
+                        if not okk:
+                            why = "filters: %s with update(%s)" % (e6.show(fsrc, 3)[:80], ", ".join(e6.show(x, 2)[:30] for x in a))
+                        else:
+                            roles.setdefault("W", set()).add(g)
                     elif not zp or len(fps) != 1 or fps[0].pc or fps[0].exit is not None or len(fu) != 1 or len([e for e in fps[0].eff if e[0] != "loop"]) != 1:
                         why = "filter loop over %s with %d path(s)" % (e6.show(fsrc, 3)[:80], len(fps))
                     else:
